@@ -112,7 +112,8 @@ def cases(draw, sockets=False):
     case = {"calls": calls, "style": style, "version": draw(st.sampled_from([1.0, 2.0])), "jsonclass": jsonclass,
             "server_version": draw(st.sampled_from([1.0, 2.0])),
             # MultiCall(proxy) as in the README, or MultiCall(proxy, config)
-            "mc_config": draw(st.booleans())}
+            "mc_config": draw(st.booleans()),
+            "reg": draw(st.sampled_from(["function", "function", "instance", "falsy-instance"]))}
     if sockets:
         case["server"] = draw(st.integers(0, 5))
     return case
@@ -280,8 +281,25 @@ def oracle_loopback(case):
         box["tr"] = DispatcherTransport(ccfg, disp)
         return J.ServerProxy("http://loopback/", transport=box["tr"], config=ccfg, version=case["version"], history=history)
 
-    nt, classes = run_case(case, make_proxy, lambda n, f: disp.register_function(f, n), lambda: list(box["tr"].exchanged))
+    # the callables are registered one by one as functions, or live on one registered instance
+    # (a plain object, or one that is an empty collection and therefore falsy)
+    reg = case.get("reg", "function")
+    simple = all(c["name"].isidentifier() and not c["name"].startswith("_") and not keyword.iskeyword(c["name"]) for c in case["calls"])
+    if reg != "function" and simple:
+        holder_cls = type("Service", (object,), {"__len__": lambda self: 0} if reg == "falsy-instance" else {})
+        holder = holder_cls()
+        disp.register_instance(holder)
+
+        def register(n, f):
+            holder.__dict__[n] = f
+    else:
+        reg = "function"
+
+        def register(n, f):
+            disp.register_function(f, n)
+    nt, classes = run_case(case, make_proxy, register, lambda: list(box["tr"].exchanged))
     classes.append("transport:loopback")
+    classes.append("registered-as:" + reg)
     return Info(nt=nt, classes=classes, key=(repr(case), "loopback"),
                 sample={"calls": [(c["name"], c["params"], c["result"]) for c in case["calls"]], "style": case["style"], "version": case["version"]})
 
